@@ -5,7 +5,7 @@ from . import par
 
 TIERS = {
     "quick":    {"cfgs": ["MC_Tree_2s1p.cfg", "MC_Tree_1s2p.cfg", "MC_Tree_3s0p.cfg", "MC_Tree_1s3p.cfg", "MC_Tree_unn.cfg"], "hist": (1500, 30)},
-    "thorough": {"cfgs": ["MC_Tree_2s1p.cfg", "MC_Tree_1s2p.cfg", "MC_Tree_3s0p.cfg", "MC_Tree_1s3p.cfg", "MC_Tree_unn.cfg", "MC_Tree_3s1p.cfg"], "hist": (5000, 40)},
+    "thorough": {"cfgs": ["MC_Tree_2s1p.cfg", "MC_Tree_1s2p.cfg", "MC_Tree_3s0p.cfg", "MC_Tree_1s3p.cfg", "MC_Tree_unn.cfg", "MC_Tree_unn2.cfg", "MC_Tree_3s1p.cfg"], "hist": (5000, 40)},
 }
 UNIVERSE = {"d1": "doc", "d2": "doc", "s1": "sec", "s2": "sec", "s3": "sec", "s4": "sec", "p1": "prop", "p2": "prop"}
 
